@@ -705,8 +705,9 @@ func checkFoPair(c *Ctx, p foPair) {
 						imps[filepath.Base(v)] = true
 					}
 				}
-				gr, locals := goFuncRefs(g, G, imps)
-				fr := foFuncRefs(l.all, l.name, G, imps)
+				cases, caseStructs := dirCases(filepath.Dir(p.gen))
+				gr, locals := goFuncRefs(g, G, imps, caseStructs)
+				fr := foFuncRefs(l.all, l.name, G, imps, cases)
 				var diffs []string
 				names := map[string]bool{}
 				for k := range gr {
@@ -963,7 +964,7 @@ func dirFuncs(dir string) map[string]bool {
 
 // goFuncRefs: multiset of referenced package-level functions (own package: bare name; imported: pkg.Name) in a declaration,
 // and the set of names declared locally inside it.
-func goFuncRefs(n ast.Node, G map[string]bool, imports map[string]bool) (map[string]int, map[string]bool) {
+func goFuncRefs(n ast.Node, G map[string]bool, imports map[string]bool, caseStructs map[string]string) (map[string]int, map[string]bool) {
 	refs := map[string]int{}
 	locals := map[string]bool{}
 	skip := map[*ast.Ident]bool{}
@@ -1078,11 +1079,40 @@ func goFuncRefs(n ast.Node, G map[string]bool, imports map[string]bool) (map[str
 		}
 		return true
 	})
+	// union cases: constructor uses New_<U>_<C> and type-switch labels <U>_<C>
+	if caseStructs != nil {
+		ast.Inspect(n, func(x ast.Node) bool {
+			switch y := x.(type) {
+			case *ast.Ident:
+				if strings.HasPrefix(y.Name, "New_") {
+					if c, ok := caseStructs[strings.TrimPrefix(y.Name, "New_")]; ok {
+						refs["case "+c]++
+					}
+				}
+			case *ast.CaseClause:
+				for _, e := range y.List {
+					if id, ok := e.(*ast.Ident); ok {
+						if c, ok := caseStructs[id.Name]; ok {
+							refs["case "+c]++
+						}
+					}
+					if ix, ok := e.(*ast.IndexExpr); ok {
+						if id, ok := ix.X.(*ast.Ident); ok {
+							if c, ok := caseStructs[id.Name]; ok {
+								refs["case "+c]++
+							}
+						}
+					}
+				}
+			}
+			return true
+		})
+	}
 	return refs, locals
 }
 
 // foFuncRefs: the same multiset read off the Folang tokens of a let definition.
-func foFuncRefs(ts []fo.Tok, defName string, G map[string]bool, imports map[string]bool) map[string]int {
+func foFuncRefs(ts []fo.Tok, defName string, G map[string]bool, imports map[string]bool, cases map[string]bool) map[string]int {
 	refs := map[string]int{}
 	seenName := false
 	countGo := func(src string) {
@@ -1203,6 +1233,9 @@ func foFuncRefs(ts []fo.Tok, defName string, G map[string]bool, imports map[stri
 			if G[t.Text] {
 				refs[t.Text]++
 			}
+			if cases[t.Text] {
+				refs["case "+t.Text]++
+			}
 		}
 	}
 	return refs
@@ -1220,3 +1253,71 @@ func isFuncRefExpr(e ast.Expr, G map[string]bool, imports map[string]bool) bool 
 	}
 	return false
 }
+
+
+var dirCasesCache = map[string]map[string]bool{}
+
+// dirCases: the union case names of a directory's package, read off the generated constructors New_<Union>_<Case>
+// (function or variable) whose <Union> is a declared interface type.  Returns case name -> true and the set of
+// case-struct names <Union>_<Case>.
+func dirCases(dir string) (map[string]bool, map[string]string) {
+	key := dir
+	structs := map[string]string{}
+	if m, ok := dirCasesCache[key]; ok {
+		for c := range dirCaseStructs[key] {
+			structs[c] = dirCaseStructs[key][c]
+		}
+		return m, structs
+	}
+	m := map[string]bool{}
+	ifaces := map[string]bool{}
+	var ctors []string
+	ents, _ := os.ReadDir(dir)
+	fset := token.NewFileSet()
+	for _, e := range ents {
+		if !strings.HasSuffix(e.Name(), ".go") || strings.HasSuffix(e.Name(), "_test.go") {
+			continue
+		}
+		f, err := parser.ParseFile(fset, filepath.Join(dir, e.Name()), nil, parser.SkipObjectResolution)
+		if err != nil {
+			continue
+		}
+		for _, d := range f.Decls {
+			switch x := d.(type) {
+			case *ast.FuncDecl:
+				if x.Recv == nil && strings.HasPrefix(x.Name.Name, "New_") {
+					ctors = append(ctors, x.Name.Name)
+				}
+			case *ast.GenDecl:
+				for _, sp := range x.Specs {
+					switch y := sp.(type) {
+					case *ast.TypeSpec:
+						if _, ok := y.Type.(*ast.InterfaceType); ok {
+							ifaces[y.Name.Name] = true
+						}
+					case *ast.ValueSpec:
+						for _, n := range y.Names {
+							if strings.HasPrefix(n.Name, "New_") {
+								ctors = append(ctors, n.Name)
+							}
+						}
+					}
+				}
+			}
+		}
+	}
+	for _, c := range ctors {
+		rest := strings.TrimPrefix(c, "New_")
+		i := strings.Index(rest, "_")
+		if i <= 0 || !ifaces[rest[:i]] {
+			continue
+		}
+		m[rest[i+1:]] = true
+		structs[rest] = rest[i+1:]
+	}
+	dirCasesCache[key] = m
+	dirCaseStructs[key] = structs
+	return m, structs
+}
+
+var dirCaseStructs = map[string]map[string]string{}
